@@ -490,6 +490,13 @@ impl Memfs {
                     // Add the new dst entry to the filesystem
                     self._add(guard, dst)?;
 
+                    // An existing destination keeps its entry, a requested mode still applies to it
+                    if let Some(mode) = file_mode {
+                        if let Some(entry) = guard.get_entry_mut(&dst_path) {
+                            entry.set_mode(Some(mode));
+                        }
+                    }
+
                     // Copy the src file over as well
                     if !src.is_symlink() {
                         let dst_file = self._clone_file(guard, src.path())?;
